@@ -1027,6 +1027,12 @@ def digest_term(it, algo, log):
         if all(r is not None for r in rs):
             whole = Rope([pp for r in rs for pp in r.parts]).simplify()
             out = [whole]
+            if not getattr(it, 'ROPES', False):
+                # a rule that does not track byte layouts sees the same stream whether the code hashed it piece by piece or from one
+                # assembled buffer: the pieces of the layout, adjacent constants merged
+                parts_ = getattr(whole, 'parts', None)
+                if parts_:
+                    out = [v_ for v_, _n in parts_]
     if getattr(it, 'CONCRETE_HASH', False) and all(isinstance(p, K) and isinstance(p.v, (bytes, bytearray)) for p in out):
         import hashlib
         return K(hashlib.new(algo, b''.join(bytes(p.v) for p in out)).digest())
